@@ -489,11 +489,47 @@ def check_fresh(run, repo, init_attrs):
         run.violation('C20-A', hub.relpath, 'MemoryControllerHub.from_memory_list', 'fresh hub', 'the hub handed to a new processor is not freshly constructed')
 
 
+def check_latched_configuration(run, repo):
+    """C20-L: a configuration value that constructors latch into instance state (e.g. MPUIR.DREGION :=
+    number_of_mpu_regions()) is not read again from the process-wide singleton at run time: the instance would
+    then follow the configuration of whichever processor was created last instead of its own latched copy."""
+    cfg = repo.module('armulator.armv6.configurations')
+    names = {n.name for n in cfg.tree.body if isinstance(n, ast.FunctionDef)}
+    init, runtime = {}, {}
+    for m in repo.modules.values():
+        if m is cfg:
+            continue
+        for node in ast.walk(m.tree):
+            if not isinstance(node, ast.FunctionDef):
+                continue
+            for c in ast.walk(node):
+                if isinstance(c, ast.Call):
+                    f = c.func
+                    nm = f.id if isinstance(f, ast.Name) else (f.attr if isinstance(f, ast.Attribute) else None)
+                    if nm in names and (isinstance(f, ast.Name) or ast.unparse(f.value).endswith('configurations')):
+                        (init if node.name == '__init__' else runtime).setdefault(nm, []).append((m.relpath, node.name, c))
+    both = sorted(set(init) & set(runtime))
+    run.instance('C20-L', 'latched configuration values', obligations=max(1, len(init)), ok=not both,
+                 sample={'latched_at_construction': sorted(init), 'read_at_run_time': len(runtime)})
+    for nm in both:
+        for rel, fn, c in runtime[nm]:
+            run.violation('C20-L', rel, fn, '%s() at run time' % nm,
+                          '%s() is latched into instance state by %s but %s reads it again from the process-wide configuration at run '
+                          'time: after another processor with a different configuration is created this instance follows the newer value'
+                          % (nm, ', '.join(sorted({'%s:%s' % (r.split('/')[-1], f) for r, f, _ in init[nm]})), fn))
+    return both
+
+
 def main(repo_path, tier, seed, replay=None):
     run = Run('C20', tier, level='other', seed=seed)
     repo = Repo(repo_path)
+    import re
+    from .. import memo
+    memo.check(run, repo, 'C20-MEMO', lambda rel, q: True,
+               'the whole package: a step must not depend on results remembered from earlier steps')
     eff = Effects(repo)
     check_shared_state(run, repo)
+    check_latched_configuration(run, repo)
     check_dynamic_attribute_writes(run, repo)
     check_nondeterminism(run, repo)
     attrs = check_scratch(run, repo, eff)
@@ -516,6 +552,25 @@ def main(repo_path, tier, seed, replay=None):
         fired = any('_TRACE' in f.message or '_TRACE' in f.construct for f in tmp.findings)
         what = 'module-level list appended to from execute_instruction'
     run.control('C20-G run-time write to module state', fired, what)
+    # positive control of C20-L: the MPU region loop bound read from the global configuration instead of MPUIR.DREGION
+    fi2 = repo.method('ArmV6', 'translate_address_p')
+    src2 = fi2.module.source
+    if 'range(self.registers.mpuir.dregion)' in src2:
+        mrepo = Repo(repo_path, overrides={fi2.module.relpath: src2.replace('range(self.registers.mpuir.dregion)',
+                                                                               'range(number_of_mpu_regions())', 1)})
+        tmp = Run('C20')
+        run.control('C20-L latched value re-read at run time', bool(check_latched_configuration(tmp, mrepo)),
+                    'translate_address_p iterates range(number_of_mpu_regions())')
+    else:
+        run.control('C20-L latched value re-read at run time', False, '')
+    # positive control of the memo detector (its expected count on the tree is zero): a keyed cache in front of a helper
+    bo = repo.module('armulator.armv6.bits_ops')
+    memo_src = bo.source + ('\n\n_SEEN = {}\n\n\ndef remembered_align(x, y, carry):\n    if x in _SEEN:\n        return _SEEN[x]\n'
+                            '    r = align(x, y) + carry\n    _SEEN[x] = r\n    return r\n')
+    mrepo = Repo(repo_path, overrides={bo.relpath: memo_src})
+    from .. import memo as memomod
+    got = [x for x in memomod.find_memos(mrepo) if x[1] == 'remembered_align']
+    run.control('C20-MEMO keyed cache with an incomplete key', bool(got), 'bits_ops.remembered_align(x, y, carry) remembered by x only')
     run.exhaustive = True
     run.undecided = ['trace equality under deep copies and interleavings as such: it follows from G + N + S + P + A and is otherwise a '
                      'property of histories']
